@@ -109,6 +109,47 @@ def plain4(n: int):
 def specialised4(n: int):
     return ilist.map(recm, ilist.range(n))
 
+@move
+def make_adder(k: int):
+    def adder(i: int):
+        return spec.get_int_constant(constant_id="n2") * k + i
+    return adder
+
+@move
+def plain6(n: int):
+    f = make_adder(3)
+    return ilist.map(f, ilist.range(n))
+
+@move(arch_spec=_C06.SPEC_SLOT)
+def specialised6(n: int):
+    f = make_adder(3)
+    return ilist.map(f, ilist.range(n))
+
+@move
+def adder3_map(n: int):
+    f = make_adder(3)          # folded to a constant closure (with its captured value) when this subroutine is compiled
+    return ilist.map(f, ilist.range(n))
+
+@move
+def plain8(n: int):
+    return adder3_map(n)
+
+@move(arch_spec=_C06.SPEC_SLOT)
+def specialised8(n: int):
+    return adder3_map(n)
+
+@move
+def plain7(n: int):
+    def local_adder(i: int):
+        return spec.get_int_constant(constant_id="n2") + i + n
+    return ilist.map(local_adder, ilist.range(n))
+
+@move(arch_spec=_C06.SPEC_SLOT)
+def specialised7(n: int):
+    def local_adder(i: int):
+        return spec.get_int_constant(constant_id="n2") + i + n
+    return ilist.map(local_adder, ilist.range(n))
+
 def _rows():
     @move
     def position(i: int):
@@ -171,7 +212,10 @@ def first_class_stream(ctx, spec):
                            (mod.plain2, mod.specialised2, "passed to ilist.map by a subroutine that is itself passed to ilist.map"),
                            (mod.plain3, mod.specialised3, "invoked by a subroutine that is passed to ilist.map"),
                            (mod.plain4, mod.specialised4, "recursive and passed to ilist.map"),
-                           (mod.plain5, mod.specialised5, "one of two distinct subroutines with the same Python name, both passed to ilist.map")):
+                           (mod.plain5, mod.specialised5, "one of two distinct subroutines with the same Python name, both passed to ilist.map"),
+                           (mod.plain6, mod.specialised6, "a closure with a captured value, made by a subroutine called with literal arguments, passed to ilist.map"),
+                           (mod.plain7, mod.specialised7, "a local closure capturing a run-time value, passed to ilist.map"),
+                           (mod.plain8, mod.specialised8, "a constant closure with a captured value inside an already compiled subroutine, passed to ilist.map")):
             ref = EV.run_with_events(a, spec, (n,))
             got = EV.run_with_events(b, spec, (n,), plain=True)
             def show(v):
@@ -377,6 +421,10 @@ def run(ctx):
         if k < len(rows):
             ctx.sample({"source": rows[k][0]["source"][:1200], "args": rows[k][0]["args"], "reference": rows[k][1][:300], "compiled": rows[k][2][:300]})
     if ctx.counts.get("spec_compile_rejected", 0) > 0.1 * len(rows):
-        raise HarnessFault("more than 10% of the programs are rejected when compiled with a spec")
+        # an occasional verifier rejection of a callee clone is known on the pinned tree (none at most seeds); one program in ten
+        # is not that: programs that compile without a spec stop compiling with one
+        first = next((r[0] for r in rows if r[0].get("spec_compile_error")), {"note": "see notes"})
+        ctx.fail(first, f"{ctx.counts['spec_compile_rejected']} of {len(rows)} runs: the program compiles without a spec but is rejected "
+                        f"when compiled with one: {str(first.get('spec_compile_error'))[:200]}")
     if ctx.counts.get("runs_ok", 0) < 0.3 * len(rows) or ctx.counts.get("runs_err", 0) < 3:
         raise HarnessFault(f"generator degenerate: {ctx.counts}")
